@@ -475,3 +475,14 @@ pub fn width_classes(thorough: bool) -> Vec<usize> {
         vec![32769, 65537, 100_000]
     }
 }
+
+
+/// Type grid: one or two representatives of every JSON type and of every internal number
+/// representation (i64, u64 beyond i64, float, negative zero, subnormal), numeric and non-numeric
+/// strings, empty / singleton / nested arrays, empty / non-empty objects.
+pub fn type_grid() -> Vec<Value> {
+    many(&[
+        "null", "true", "false", "0", "1", "-1.5", "-0.0", "5e-324", "9223372036854775808", "9007199254740993",
+        r#""""#, r#""a""#, r#""1""#, r#"" ""#, "[]", "[1]", "[[1]]", r#"["a",null]"#, "{}", r#"{"a":1,"b":null}"#,
+    ])
+}
